@@ -320,6 +320,7 @@ def py_spec(s):
         return None
 
     st = {p: ("Unknown", None) for p in range(len(s.threads))}
+    undecided = False
     hist = []
 
     def oversub(stt):
@@ -370,7 +371,9 @@ def py_spec(s):
             if rs in ("Dead", "Unknown") or rc is None or c is None:
                 return False, hist
             if c == rc:
-                return None, hist          # the documentation does not say; the emulator refuses
+                # the documentation does not say whether moving a thread to the CPU it is on is an error (the
+                # emulator refuses it): no verdict, but IF the trace is accepted nothing may have moved
+                undecided = True
             new[q] = (rs, c)
         else:
             continue
@@ -380,7 +383,7 @@ def py_spec(s):
         hist.append((clk, dict(st)))
     if any(a != "Dead" for (a, c) in st.values()):
         return False, hist
-    return True, hist
+    return (None if undecided else True), hist
 
 
 def decide_thread_rows(s, real_rows, hist):
